@@ -139,26 +139,18 @@ Example ex_api_wf : forall now,
   /\ ops_wf 10 false ex_lines ex_kittyw world_init [ORedraw frame1 base0; OApi wd0 now; ORedraw frame1 base1].
 Proof.
   intro now. destruct now; split.
-  1,3: simpl; (split; [split; [exact ex_wf1|intro Hn; exfalso; apply Hn; reflexivity]|]);
-    (split; [exact ex_wf_api0|]); (split; [|exact I]); (split; [exact ex_wf11|]).
-  3,4: simpl; (split; [split; [exact ex_wf1|intro Hn; exfalso; apply Hn; reflexivity]|]);
-    (split; [exact ex_wf_api|]); (split; [|exact I]); (split; [exact ex_wf11|]).
-  - exact (count_ok_after_one_api 10 false ex_lines world_init frame1 base0 [] true frame1 (NoDup_nil _)).
-  - exact (count_ok_after_one_api 10 false ex_lines world_init frame1 base0 [] false frame1 (NoDup_nil _)).
-  - apply (count_ok_after_one_api 10 false ex_lines world_init frame1 base0 wd0 true frame1). repeat constructor. simpl. tauto.
-  - apply (count_ok_after_one_api 10 false ex_lines world_init frame1 base0 wd0 false frame1). repeat constructor. simpl. tauto.
-Qed.
-Lemma ex_dummy_unused : True.
-Proof.
-  assert (True /\ True) as [_ _].
-  { split; [exact I|]. exact I. }
-  split || idtac. 
-  - idtac. (*
-    split; [exact ex_wf_api0|]. split; [|exact I].
-    split; [exact ex_wf11|]. apply (count_ok_after_one_api 10 false ex_lines world_init frame1 base0 [] now frame1). constructor.
   - simpl. split; [split; [exact ex_wf1|intro Hn; exfalso; apply Hn; reflexivity]|].
-    split; [exact ex_wf_api|]. split; [|exact I].
-    split; [exact ex_wf11|]. apply (count_ok_after_one_api 10 false ex_lines world_init frame1 base0 wd0 now frame1). repeat constructor. simpl. tauto.
+    split; [exact ex_wf_api0|]. split; [|exact I]. split; [exact ex_wf11|].
+    apply (count_ok_after_one_api 10 false ex_lines ex_kittyw world_init frame1 base0 [] true frame1). constructor.
+  - simpl. split; [split; [exact ex_wf1|intro Hn; exfalso; apply Hn; reflexivity]|].
+    split; [exact ex_wf_api|]. split; [|exact I]. split; [exact ex_wf11|].
+    apply (count_ok_after_one_api 10 false ex_lines ex_kittyw world_init frame1 base0 wd0 true frame1). repeat constructor. simpl. tauto.
+  - simpl. split; [split; [exact ex_wf1|intro Hn; exfalso; apply Hn; reflexivity]|].
+    split; [exact ex_wf_api0|]. split; [|exact I]. split; [exact ex_wf11|].
+    apply (count_ok_after_one_api 10 false ex_lines ex_kittyw world_init frame1 base0 [] false frame1). constructor.
+  - simpl. split; [split; [exact ex_wf1|intro Hn; exfalso; apply Hn; reflexivity]|].
+    split; [exact ex_wf_api|]. split; [|exact I]. split; [exact ex_wf11|].
+    apply (count_ok_after_one_api 10 false ex_lines ex_kittyw world_init frame1 base0 wd0 false frame1). repeat constructor. simpl. tauto.
 Qed.
 Example ex_api_run :
   forallb (fun now =>
@@ -174,9 +166,9 @@ Proof. vm_compute. split; reflexivity. Qed.
     (observed on the real code as well) *)
 Example no_ghosts_needs_count_hypothesis :
   let w3 := run 10 false true ex_lines
-              [ORedraw frame1 base0; OApi [] false; OApi [] true; OApi [] false; ORedraw frame1 base1] world_init in
+              [ORedraw frame1 base0; OApi [] false; OApi [] true; OApi [] false; ORedraw frame1 base0] world_init in
   let w12 := run 10 false true ex_lines
-              [ORedraw frame1 base0; OApi wd0 false; OApi [] true; OApi [] false; ORedraw frame1 base1] world_init in
+              [OClear; ORedraw frame1 base0; OApi wd0 false; OApi [] true; OApi [] false; ORedraw frame1 base0] world_init in
   t_plcs (w_term w3) = [] /\ t_plcs (w_term w12) = [] /\ length (plcs_of ex_lines frame1) = 7.
 Proof. vm_compute. repeat split; reflexivity. Qed.
 
